@@ -221,6 +221,17 @@ func c02PickRef(r *Rng, refs []c02Ref) (c02Ref, bool) {
 
 func c02U64p(x uint64) *uint64 { return &x }
 
+func c02DeepCopy(fs []*c02Field) []*c02Field {
+	out := make([]*c02Field, len(fs))
+	for i, f := range fs {
+		cp := *f
+		cp.data = append([]byte(nil), f.data...)
+		cp.sub = c02DeepCopy(f.sub)
+		out[i] = &cp
+	}
+	return out
+}
+
 // c02MutateStruct applies strategy st to the valid encoding b (other: a second valid
 // encoding, for concatenation/splicing). Returns the mutated bytes.
 func c02MutateStruct(r *Rng, st string, b, other []byte) []byte {
@@ -353,9 +364,9 @@ func c02MutateStruct(r *Rng, st string, b, other []byte) []byte {
 		if r.Chance(25) { // the concatenation detector: time_nanos twice
 			root = append(root, &c02Field{num: 9, wt: 0, v: uint64(1 + r.Intn(5))}, &c02Field{num: 9, wt: 0, v: uint64(r.Intn(3))})
 		} else if ref, ok := c02PickRef(r, refs); ok {
-			cp := *ref.f
+			cp := c02DeepCopy([]*c02Field{ref.f})[0]
 			s := append([]*c02Field(nil), (*ref.sib)[:ref.idx+1]...)
-			s = append(s, &cp)
+			s = append(s, cp)
 			*ref.sib = append(s, (*ref.sib)[ref.idx+1:]...)
 		}
 	case "concat":
@@ -462,7 +473,7 @@ func c02MutateStruct(r *Rng, st string, b, other []byte) []byte {
 		msgs := c02Collect(&root, func(f *c02Field, _ []uint64) bool { return f.isMsg })
 		if a, ok := c02PickRef(r, msgs); ok {
 			if o, ok := c02PickRef(r, msgs); ok {
-				a.f.sub = append(append([]*c02Field(nil), a.f.sub...), o.f.sub...)
+				a.f.sub = append(append([]*c02Field(nil), a.f.sub...), c02DeepCopy(o.f.sub)...)
 			}
 		}
 	case "bitflip":
